@@ -1,6 +1,6 @@
 (* Proofs for C12: Prices.Insert (latest declaration wins, zero rejected, order independence)
    and the breadth-first Normalize (self, direct, chain, unreachable, totality). *)
-From Coq Require Import ZArith List Bool Lia.
+From Coq Require Import ZArith List Bool Lia Permutation.
 From Knut Require Import Model.Str Model.Dec Model.Price Model.Journal Model.Ledger Model.Pipeline.
 From Knut Require Import Spec.PriceSpec Proofs.SMapProofs.
 Import ListNotations.
@@ -94,6 +94,53 @@ Lemma build_latest h ps c t : build h = Some ps -> stored ps t c = latest h c t.
 Proof.
   intros H. rewrite (build_from_latest h [] ps c t H).
   destruct (latest h c t); reflexivity.
+Qed.
+
+Lemma zero_rejected ps c p t :
+  is_zero p = true ->
+  prices_insert ps c p t = InsErrZero /\
+  (forall s, cp_price_cb s (c, p, t) = RErr k_price_zero c) /\
+  (forall h1 h2, build (h1 ++ (c, p, t) :: h2) = None).
+Proof.
+  intros Hz. split; [apply insert_zero; exact Hz|]. split.
+  - intros s. unfold cp_price_cb. rewrite (insert_zero _ _ _ _ Hz). reflexivity.
+  - intros h1 h2. unfold build. generalize (@nil (str * smap dec)) as ps0.
+    induction h1 as [|[[c1 p1] t1] h1 IH]; intros ps0; cbn [app build_from].
+    + rewrite (insert_zero _ _ _ _ Hz). reflexivity.
+    + destruct (prices_insert ps0 c1 p1 t1); auto.
+Qed.
+
+(* [latest] read explicitly: the last declaration that says something about (c, t) decides *)
+Lemma latest_last h1 d h2 c t x :
+  decl_value d c t = Some x -> (forall d', In d' h2 -> decl_value d' c t = None) ->
+  latest (h1 ++ d :: h2) c t = Some x.
+Proof.
+  intros Hd Hrest.
+  assert (latest h2 c t = None) as H2.
+  { induction h2 as [|d' h2 IH]; [reflexivity|]. cbn [latest].
+    rewrite IH; [apply Hrest; left; reflexivity | intros d'' H; apply Hrest; right; exact H]. }
+  induction h1 as [|d1 h1 IH]; cbn [app latest].
+  - rewrite H2. exact Hd.
+  - rewrite IH. reflexivity.
+Qed.
+
+Lemma build_last_declaration h1 c p t h2 ps :
+  build (h1 ++ (c, p, t) :: h2) = Some ps -> c <> t ->
+  (forall c' p' t', In (c', p', t') h2 -> ~ (c' = c /\ t' = t) /\ ~ (c' = t /\ t' = c)) ->
+  stored ps t c = Some p /\ stored ps c t = Some (recip p).
+Proof.
+  intros B Hne Hrest.
+  assert (forall d', In d' h2 -> decl_value d' c t = None /\ decl_value d' t c = None) as Hn.
+  { intros [[c' p'] t'] Hin. destruct (Hrest _ _ _ Hin) as [N1 N2]. unfold decl_value.
+    destruct (str_eqb c t') eqn:E1, (str_eqb t c') eqn:E2, (str_eqb c c') eqn:E3, (str_eqb t t') eqn:E4;
+      cbn [andb]; auto;
+      repeat match goal with H : str_eqb _ _ = true |- _ => apply str_eqb_eq in H end;
+      subst; exfalso; auto. }
+  rewrite !(build_latest _ _ _ _ B). split.
+  - apply latest_last; [|intros d' H; apply (Hn d' H)].
+    unfold decl_value. apply str_eqb_neq in Hne. rewrite Hne, !str_eqb_refl. reflexivity.
+  - apply latest_last; [|intros d' H; apply (Hn d' H)].
+    unfold decl_value. rewrite !str_eqb_refl. reflexivity.
 Qed.
 
 Lemma build_from_ok_iff h : forall ps,
@@ -509,3 +556,202 @@ Section Bfs.
     exists path, x. exact P.
   Qed.
 End Bfs.
+
+(* ================================================================ the executable statement *)
+Lemma mem_true k l : mem k l = true <-> In k l.
+Proof.
+  unfold mem. rewrite existsb_exists. split.
+  - intros (x & Hx & E). apply str_eqb_eq in E. subst. exact Hx.
+  - intros H. exists k. split; [exact H | apply str_eqb_refl].
+Qed.
+
+Lemma last_in {A} (l : list A) : forall d, In (last l d) (d :: l).
+Proof.
+  induction l as [|m l IH]; intros d; [left; reflexivity|].
+  rewrite last_cons. right. apply IH.
+Qed.
+
+Lemma neighbours_sorted ps c : wf_maps ps -> sorted (neighbours ps c).
+Proof.
+  intros [_ Hin]. unfold neighbours. destruct (sm_get ps c) eqn:G; [apply (Hin _ _ G) | constructor].
+Qed.
+
+(* every enumerated value is the value of a path to the target *)
+Lemma path_values_sound ps : wf_maps ps -> forall fuel cur acc visited target x,
+  In x (path_values fuel ps cur acc visited target) ->
+  exists path, path_value ps cur acc path = Some x /\ last path cur = target.
+Proof.
+  intros Hwf. induction fuel as [|f IH]; intros cur acc visited target x H; cbn [path_values] in H.
+  - destruct (str_eqb cur target) eqn:E; [|destruct H].
+    apply str_eqb_eq in E. destruct H as [<-|[]]. exists []. split; [reflexivity | exact E].
+  - destruct (str_eqb cur target) eqn:E.
+    + apply str_eqb_eq in E. destruct H as [<-|[]]. exists []. split; [reflexivity | exact E].
+    + apply in_flat_map in H. destruct H as ([n p] & Hnp & Hx). cbn [fst snd] in Hx.
+      destruct (mem n visited); [destruct Hx|].
+      destruct (IH _ _ _ _ _ Hx) as (path & P1 & P2).
+      exists (n :: path). split.
+      * cbn [path_value].
+        assert (stored ps cur n = Some p) as ->; [|exact P1].
+        rewrite stored_neighbours. apply sorted_in_get; [apply neighbours_sorted; exact Hwf | exact Hnp].
+      * rewrite last_cons. exact P2.
+Qed.
+
+(* the value of every simple path that avoids [visited] and has at most [fuel] edges is enumerated *)
+Lemma path_values_complete ps : forall path fuel cur acc visited target x,
+  path_value ps cur acc path = Some x -> last path cur = target -> NoDup (cur :: path) ->
+  (forall n, In n path -> ~ In n visited) -> (length path <= fuel)%nat ->
+  In x (path_values fuel ps cur acc visited target).
+Proof.
+  induction path as [|n path IH]; intros fuel cur acc visited target x P L ND NV Hlen.
+  - cbn [path_value last] in P, L. injection P as <-. subst target.
+    destruct fuel; cbn [path_values]; rewrite str_eqb_refl; left; reflexivity.
+  - assert (str_eqb cur target = false) as E.
+    { assert (In target (n :: path)) as Ht by (rewrite <- L, last_cons; apply last_in).
+      apply str_eqb_neq. intros Heq. rewrite Heq in ND.
+      apply NoDup_cons_iff in ND. destruct ND as [Hnin _]. contradiction. }
+    destruct fuel as [|f]; [cbn [length] in Hlen; lia|].
+    cbn [path_values]. rewrite E.
+    cbn [path_value] in P. destruct (stored ps cur n) as [p|] eqn:S; [|discriminate].
+    apply in_flat_map. exists (n, p). split.
+    + rewrite stored_neighbours in S. apply sm_get_in. exact S.
+    + cbn [fst snd].
+      assert (mem n visited = false) as ->.
+      { destruct (mem n visited) eqn:M; [|reflexivity]. apply mem_true in M.
+        exfalso. apply (NV n); [left; reflexivity | exact M]. }
+      apply NoDup_cons_iff in ND. destruct ND as [Hcur ND'].
+      pose proof ND' as ND2. apply NoDup_cons_iff in ND2. destruct ND2 as [Hn ND''].
+      apply IH; try assumption.
+      * rewrite last_cons in L. exact L.
+      * intros m Hm [<-|Hv]; [contradiction|]. apply (NV m); [right; exact Hm | exact Hv].
+      * cbn [length] in Hlen. lia.
+Qed.
+
+Lemma path_nodes_keys ps : symmetric ps -> forall path cur acc x,
+  path_value ps cur acc path = Some x -> incl path (keys ps).
+Proof.
+  intros Hsym. induction path as [|n path IH]; intros cur acc x P m Hm; [destruct Hm|].
+  cbn [path_value] in P. destruct (stored ps cur n) as [p|] eqn:S; [|discriminate].
+  destruct Hm as [<-|Hm].
+  - apply (symmetric_neighbour_key ps cur n Hsym).
+    rewrite stored_neighbours in S. eapply sm_get_in_keys. exact S.
+  - eapply IH; eassumption.
+Qed.
+
+Lemma simple_path_length ps cur acc path x :
+  symmetric ps -> path_value ps cur acc path = Some x -> NoDup path -> (length path <= length ps)%nat.
+Proof.
+  intros Hsym P ND. rewrite <- (keys_length ps). apply NoDup_incl_length; [exact ND|].
+  eapply path_nodes_keys; eassumption.
+Qed.
+
+(* what the model returns satisfies the statement the check evaluates on the Go output *)
+Lemma normalize_meets_spec ps v np c :
+  wf_prices ps -> normalize ps v = Some np -> valid_price_b ps v c (sm_get np c) = true.
+Proof.
+  intros [Hm Hsym] H. unfold valid_price_b.
+  destruct (str_eqb c v) eqn:E.
+  - apply str_eqb_eq in E. subst. rewrite (normalize_self _ _ _ H). cbn [opt_dec_equal].
+    apply dec_equal_refl.
+  - apply str_eqb_neq in E. destruct (stored ps v c) as [p|] eqn:S.
+    + rewrite (normalize_direct _ _ _ _ _ H E S). cbn [opt_dec_equal]. apply dec_equal_refl.
+    + destruct (sm_get np c) as [x|] eqn:G.
+      * destruct (normalize_chain _ _ _ _ _ H G) as (path & [P1 P2] & ND & _).
+        apply existsb_exists. exists x. split; [|apply dec_equal_refl].
+        inversion ND as [|? ? Hv ND']; subst.
+        apply (path_values_complete ps path); try assumption; try reflexivity.
+        -- intros n Hn [<-|[]]. contradiction.
+        -- eapply simple_path_length; eassumption.
+      * destruct (path_values (length ps) ps v one [v] c) as [|y l] eqn:PV; [reflexivity|].
+        exfalso.
+        assert (In y (path_values (length ps) ps v one [v] c)) as Hy by (rewrite PV; left; reflexivity).
+        apply (path_values_sound ps Hm) in Hy. destruct Hy as (path & P1 & P2).
+        destruct (normalize_reachable _ _ _ c H) as [x Gx]; [|congruence].
+        exists path, y. split; assumption.
+Qed.
+
+(* ================================================================ Valuate *)
+Lemma valuate_no_price v s t p np :
+  v_cur s = Some np -> sm_get np (p_com p) = None -> is_zero (p_qty p) = false -> p_com p <> v ->
+  val_posting v s t p = RErr k_no_price (p_com p).
+Proof.
+  unfold val_posting. intros Hc Hn Hz Hne. rewrite Hz.
+  assert (str_eqb v (p_com p) = false) as -> by (apply str_eqb_neq; congruence).
+  cbn [v_cur]. rewrite Hc. unfold np_valuate. rewrite Hn. reflexivity.
+Qed.
+
+Lemma connected_refl ps v : connected ps v v.
+Proof. exists [], one. split; reflexivity. Qed.
+
+Lemma unreachable_errors ps v c np :
+  normalize ps v = Some np -> ~ connected ps v c ->
+  np_price np c = None /\
+  (forall a, np_valuate np c a = None) /\
+  (forall s t p, v_cur s = Some np -> p_com p = c -> is_zero (p_qty p) = false ->
+                 exists f, pr_posting (valuate_proc v) = Some f /\ f s t p = RErr k_no_price c).
+Proof.
+  intros H Hn. pose proof (normalize_unreachable _ _ _ _ H Hn) as G.
+  split; [exact G|]. split.
+  - intros a. unfold np_valuate. rewrite G. reflexivity.
+  - intros s t p Hc Hp Hz. exists (val_posting v). split; [reflexivity|].
+    subst c. apply valuate_no_price with (np := np); try assumption.
+    intros E. apply Hn. rewrite E. apply connected_refl.
+Qed.
+
+(* ================================================================ the pinned depth-first code *)
+Definition sA : str := [65].
+Definition sB : str := [66].
+Definition sC : str := [67].
+Definition sD : str := [68].
+Definition sE : str := [69].
+Definition sV : str := [86].
+
+(* A is declared directly in V (2) and is also reachable through B (3 * 5 = 15) *)
+Definition alt_history : list decl :=
+  [(sA, of_int 2, sV); (sB, of_int 3, sV); (sA, of_int 5, sB)].
+
+Definition rev_order (_ : str) (l : list (str * dec)) : list (str * dec) := rev l.
+Definition id_order (_ : str) (l : list (str * dec)) : list (str * dec) := l.
+
+Lemma dfs_refuted :
+  exists ps v c p order,
+    build alt_history = Some ps /\ (forall k l, Permutation (order k l) l) /\
+    c <> v /\ stored ps v c = Some p /\
+    sm_get (normalize_dfs order ps v) c <> Some (truncate p 8) /\
+    sm_get (normalize_dfs order ps v) c <> sm_get (normalize_dfs id_order ps v) c.
+Proof.
+  destruct (build alt_history) as [ps|] eqn:B; [|vm_compute in B; discriminate].
+  exists ps, sV, sA, (of_int 2), rev_order.
+  split; [reflexivity|]. split; [intros k l; apply Permutation_sym, Permutation_rev|].
+  vm_compute in B. injection B as <-.
+  split; [discriminate|]. split; [vm_compute; reflexivity|].
+  split; vm_compute; discriminate.
+Qed.
+
+(* ================================================================ statements over histories *)
+Lemma normalize_total_built h ps v : build h = Some ps -> normalize ps v <> None.
+Proof.
+  intros B. destruct (normalize_total ps v (proj2 (wf_build h ps B))) as [np E].
+  rewrite E. discriminate.
+Qed.
+
+Lemma normalize_direct_multiply ps v np c p :
+  normalize ps v = Some np -> c <> v -> stored ps v c = Some p ->
+  np_price np c = Some (multiply p one) /\ multiply p one = truncate p 8.
+Proof.
+  intros H Hne S. rewrite multiply_one. split; [|reflexivity].
+  exact (normalize_direct ps v np c p H Hne S).
+Qed.
+
+Lemma order_independent h1 h2 ps1 ps2 :
+  build h1 = Some ps1 -> build h2 = Some ps2 ->
+  (forall c t, latest h1 c t = latest h2 c t) ->
+  ps1 = ps2 /\ forall v, normalize ps1 v = normalize ps2 v.
+Proof.
+  intros B1 B2 H.
+  assert (ps1 = ps2) as -> by (eapply build_order_independent; eassumption).
+  split; reflexivity.
+Qed.
+
+Lemma model_meets_spec h ps v np c :
+  build h = Some ps -> normalize ps v = Some np -> valid_price_b ps v c (np_price np c) = true.
+Proof. intros B. apply normalize_meets_spec. exact (wf_build h ps B). Qed.
